@@ -145,6 +145,16 @@ pub mod stubs {
     /// the Arc allocation, so it would explore the destructor of every Arc'd object (BTreeMap of
     /// Metrics::Op, channels, maps) at every Arc drop.
     pub unsafe fn arc_drop_slow<T: ?Sized, A: std::alloc::Allocator>(_a: &mut std::sync::Arc<T, A>) {}
+    /// `WaitGroup::wait` parks the thread (Condvar): cannot run under Kani. On one thread, with
+    /// the only other party (the processor) already run to completion by the harness, "the counter
+    /// is still positive" IS "blocks forever": the stub asserts the counter reached zero.
+    pub fn wg_wait(w: &wg::WaitGroup) {
+        if let Some(f) = unsafe { WG_DRIVER } {
+            f();
+        }
+        assert!(w.waitings() == 0, "wait() would block forever: the Wait marker was never released");
+    }
+    pub static mut WG_DRIVER: Option<fn()> = None;
     pub fn fmt_format(_a: std::fmt::Arguments<'_>) -> String {
         String::new()
     }
@@ -298,6 +308,16 @@ pub mod chan {
 
     /// `select!{ send(..) -> .., default => .. }` goes through `internal::try_select`; its Ok value
     /// cannot be produced by a stub, so only the "nothing ready -> default" outcome is executed.
+    /// never reached (try_select never selects); stubbed so that crossbeam's channel-write path
+    /// (thread-local wake-up machinery that Kani cannot compile) is not in the call graph
+    pub fn sel_send<'a, T>(op: crossbeam_channel::SelectedOperation<'a>, _s: &Sender<T>, _msg: T) -> Result<(), SendError<T>>
+    where
+        'a: 'a,
+    {
+        std::mem::forget(op);
+        panic!("VERIF: SelectedOperation::send reached although try_select never selects")
+    }
+
     pub fn try_select<'a>(
         _handles: &mut [(&'a dyn crossbeam_channel::internal::SelectHandle, usize, *const u8)],
         _is_biased: bool,
